@@ -81,6 +81,9 @@ Proof.
     rewrite IH. cbn. reflexivity.
 Qed.
 
+Lemma length_upd_nth {A} (f : A -> A) : forall l c, length (upd_nth c f l) = length l.
+Proof. induction l as [|x l IH]; intros c; destruct c; cbn; auto. Qed.
+
 Lemma nth_app_default {A} (d : A) l c : nth c (l ++ [d]) d = nth c l d.
 Proof.
   revert c; induction l as [|x l IH]; intros c; cbn.
